@@ -549,11 +549,7 @@ impl UndoOperation for UndoLayerChange {
 
     fn undo(&mut self, edit_state: &mut EditState) -> EngineResult<()> {
         if let Some(layer) = edit_state.buffer.layers.get_mut(self.layer) {
-            if layer.get_size() == self.old_chars.get_size() {
-                layer.lines = self.old_chars.lines.clone();
-            } else {
-                layer.stamp(self.pos, &self.old_chars);
-            }
+            layer.stamp(self.pos, &self.old_chars);
             Ok(())
         } else {
             Err(EditorError::InvalidLayer(self.layer).into())
@@ -562,11 +558,7 @@ impl UndoOperation for UndoLayerChange {
 
     fn redo(&mut self, edit_state: &mut EditState) -> EngineResult<()> {
         if let Some(layer) = edit_state.buffer.layers.get_mut(self.layer) {
-            if layer.get_size() == self.new_chars.get_size() {
-                layer.lines = self.new_chars.lines.clone();
-            } else {
-                layer.stamp(self.pos, &self.new_chars);
-            }
+            layer.stamp(self.pos, &self.new_chars);
             Ok(())
         } else {
             Err(EditorError::InvalidLayer(self.layer).into())
